@@ -27,15 +27,21 @@ def run_witnesses(ctx, rep, tier, kinds=None):
     # a witness must be REJECTED, not make the compiler hang: the whole run has a deadline (normally it takes seconds)
     deadline = 420 if tier == 'quick' else 1500
     hung = False
+    import signal
+    proc = subprocess.Popen(['cargo', '+stable', 'check', '--offline', '--workspace', '--keep-going', '--message-format=json', '-q'],
+                            cwd=wdir, env=env, stdout=subprocess.PIPE, stderr=subprocess.PIPE, text=True, start_new_session=True)
     try:
-        r = subprocess.run(['cargo', '+stable', 'check', '--offline', '--workspace', '--keep-going', '--message-format=json', '-q'],
-                           cwd=wdir, env=env, capture_output=True, text=True, timeout=deadline)
-    except subprocess.TimeoutExpired as e:
+        out, err = proc.communicate(timeout=deadline)
+        r = subprocess.CompletedProcess(proc.args, proc.returncode, out, err)
+    except subprocess.TimeoutExpired:
         hung = True
-        out = e.stdout if isinstance(e.stdout, str) else (e.stdout or b'').decode('utf-8', 'replace')
-        err = e.stderr if isinstance(e.stderr, str) else (e.stderr or b'').decode('utf-8', 'replace')
-        r = subprocess.CompletedProcess(e.cmd, 124, out, err)
-        subprocess.run(['pkill', '-f', 'target-wit'], capture_output=True)
+        # only the process group of this cargo run (rustc children included) is killed
+        try:
+            os.killpg(proc.pid, signal.SIGKILL)
+        except ProcessLookupError:
+            pass
+        out, err = proc.communicate()
+        r = subprocess.CompletedProcess(proc.args, 124, out or '', err or '')
     ctx.log('witnesses: cargo check over %d crates in %.1fs%s' % (len(wits) + 1, time.time() - t0, ' (DEADLINE EXCEEDED)' if hung else ''))
     msgs = {}
     finished_ok = set()
